@@ -372,6 +372,16 @@ theorem sstep_pushModal {scr : Nat} {args : Option Nat} (hc : c.code = .pushModa
   unfold StepOK step; simp only [hc, Cfg.newSig]
   exact ⟨SStep.pushModal (v := c.sv) hc, ⟨[_, _], rfl⟩⟩
 
+/-- `push_screen_modal`: the step itself -/
+theorem step_pushModal {scr : Nat} {args : Option Nat} (hc : c.code = .pushModal scr args :: rest) :
+    ∃ c1 s, step P c = .ok c1 ∧
+      c1.sv = { c.sv with code := .newLoop s :: .modalRet ⟨c.sv.nextEid, scr, args, true⟩ :: rest,
+                          stack := c.sv.stack ++ [⟨c.sv.nextEid, scr, args, true⟩], nextEid := c.sv.nextEid + 1,
+                          ev := .modalBegin ⟨c.sv.nextEid, scr, args, true⟩ ::
+                                .stackOp "pushModal" (c.sv.stack ++ [⟨c.sv.nextEid, scr, args, true⟩]) :: c.sv.ev } := by
+  unfold step; simp only [hc, Cfg.newSig]
+  exact ⟨_, _, rfl, rfl⟩
+
 theorem sstep_modalRet {e : Entry} (hc : c.code = .modalRet e :: rest) : StepOK P c := by
   unfold StepOK step; simp only [hc]
   exact ⟨SStep.batch' (v := c.sv) hc (.modalRet e) rfl, ⟨[_], rfl⟩⟩
